@@ -19,6 +19,39 @@ mod selftest;
 
 use std::{path::Path, time::Duration};
 
+/// Counting allocator of the check driver: forwards everything to the system
+/// allocator and tells `dsim::window` about every request, so that allocator
+/// operations the code under test performs *between a sample's two
+/// timestamps* (outside the benchmarked calls) become visible to C02's
+/// oracle. It keeps no state of its own.
+struct WindowAlloc;
+
+unsafe impl std::alloc::GlobalAlloc for WindowAlloc {
+    #[inline]
+    unsafe fn alloc(&self, l: std::alloc::Layout) -> *mut u8 {
+        dsim::window::note(l.size());
+        std::alloc::System.alloc(l)
+    }
+    #[inline]
+    unsafe fn alloc_zeroed(&self, l: std::alloc::Layout) -> *mut u8 {
+        dsim::window::note(l.size());
+        std::alloc::System.alloc_zeroed(l)
+    }
+    #[inline]
+    unsafe fn realloc(&self, p: *mut u8, l: std::alloc::Layout, n: usize) -> *mut u8 {
+        dsim::window::note(n);
+        std::alloc::System.realloc(p, l, n)
+    }
+    #[inline]
+    unsafe fn dealloc(&self, p: *mut u8, l: std::alloc::Layout) {
+        dsim::window::note(l.size());
+        std::alloc::System.dealloc(p, l)
+    }
+}
+
+#[global_allocator]
+static WINDOW_ALLOC: WindowAlloc = WindowAlloc;
+
 use batch::{BatchCfg, BatchEnd, Case, EvidenceMeta, Known};
 use common::{Prop, Tier};
 use serde_json::json;
